@@ -83,12 +83,15 @@ def kani_env():
 def run_family(cid, tier, jobs, timeout_s, target, only=None):
     out_dir = os.path.join(target, "result_output_dir")
     shutil.rmtree(out_dir, ignore_errors=True)
-    pat = "%s_q_" % cid.lower() if tier == "quick" else "%s_" % cid.lower()
+    pats = ["%s_q_" % cid.lower()] if tier == "quick" else ["%s_q_" % cid.lower(), "%s_t_" % cid.lower()]
     if only:
-        pat = only
+        pats = [only]
+    hsel = []
+    for pt in pats + ["c00_q_"]:
+        hsel += ["--harness", pt]
     cmd = [
         "cargo", "kani", "--target-dir", target, "-Z", "unstable-options", "-Z", "stubbing",
-        "--harness", pat, "--harness", "c00_q_", "--harness-timeout", "%ds" % timeout_s, "-j", str(jobs),
+    ] + hsel + ["--harness-timeout", "%ds" % timeout_s, "-j", str(jobs),
         "--output-format", "terse", "--output-into-files", "--no-overflow-checks",
         "--cbmc-args", "--max-field-sensitivity-array-size", "4096",
     ]
